@@ -3,10 +3,10 @@
 ENGINE = ["contracts/engine_laws.py", "contracts/event_laws.py", "contracts/mirror_laws.py"]
 
 PROPS = {
-    "C02": {"level": "proof", "lemma_files": ENGINE, "conformance": []},
+    "C02": {"level": "proof", "lemma_files": ENGINE + ["contracts/state_index.py"], "conformance": []},
     "C03": {"level": "proof", "lemma_files": ENGINE, "conformance": []},
-    "C04": {"level": "proof", "lemma_files": ENGINE, "conformance": []},
-    "C05": {"level": "proof", "lemma_files": ENGINE, "conformance": []},
+    "C04": {"level": "proof", "lemma_files": ENGINE + ["contracts/state_index.py"], "conformance": []},
+    "C05": {"level": "proof", "lemma_files": ENGINE + ["contracts/state_index.py"], "conformance": []},
     "C06": {"level": "proof", "lemma_files": ENGINE + ["contracts/storage_laws.py", "contracts/codec_laws.py"], "conformance": []},
     "C07": {"level": "proof", "lemma_files": ENGINE + ["contracts/codec_laws.py"], "conformance": []},
     "C08": {"level": "proof", "lemma_files": ENGINE + ["contracts/state_index.py", "contracts/codec_laws.py"], "conformance": []},
@@ -16,11 +16,11 @@ PROPS = {
     "C11": {"level": "proof", "lemma_files": ENGINE + ["contracts/state_index.py", "contracts/codec_laws.py"], "conformance": []},
     "C12": {"level": "proof", "lemma_files": ENGINE + ["contracts/path_laws.py"], "conformance": ["str"]},
     "C13": {"level": "proof", "lemma_files": ["contracts/path_laws.py"], "conformance": ["str"]},
-    "C14": {"level": "proof", "lemma_files": ENGINE, "conformance": []},
+    "C14": {"level": "proof", "lemma_files": ENGINE + ["contracts/state_index.py"], "conformance": []},
     "C15": {"level": "proof", "lemma_files": ENGINE, "conformance": [], "static": ["contracts.static_lock.lock_discipline"]},
     "C16": {"level": "exploration", "lemma_files": [], "conformance": [], "bounded": ["contracts.bounded_providers.run"],
             "explanation": "bounded: provider operation sequences against a reference tree, hash law per size class, identity check"},
-    "C17": {"level": "proof", "lemma_files": ENGINE, "conformance": []},
+    "C17": {"level": "proof", "lemma_files": ENGINE + ["contracts/state_index.py"], "conformance": []},
     "C18": {"level": "proof", "lemma_files": ENGINE, "conformance": []},
     "C19": {"level": "exploration", "lemma_files": [], "conformance": [], "bounded": ["contracts.bounded_cache.run"],
             "explanation": "bounded: cache operation sequences, coherence invariant after every call"},
